@@ -17,8 +17,8 @@ RULE = ("(soundness) every node labelled unescape.xml / function.chr / function.
         "and value. distinct_nontrivial = distinct inputs with a judged node / case.")
 ASSUMPTIONS = ["utf-16 values are compared as the UTF-8 encoding of the Latin-1 characters of the pairs"]
 EXPECTED_WALL = {"quick": 50, "thorough": 400}
-REQUIRED = {"stacks_judged": 1500, "c14_unescape.xml": 500, "c14_function.chr": 500, "c14_function.unescape": 500, "c14_codec.uft-16": 300,
-            "absent_cases": 30, "chr_sequences": 150, "complete:utf16-latin1": 50, "complete:xml-leading-zero": 50}
+REQUIRED = {"stacks_judged": 187, "c14_unescape.xml": 62, "c14_function.chr": 62, "c14_function.unescape": 62, "c14_codec.uft-16": 37,
+            "absent_cases": 5, "chr_sequences": 18, "complete:utf16-latin1": 6, "complete:xml-leading-zero": 6}
 
 
 def plan(tier, seed):
